@@ -802,14 +802,19 @@ impl RenderContext {
             return Err(Error::IncompleteFrame);
         }
 
-        let lf_frame_idx = if header.flags.use_lf_frame() {
-            let lf_frame_idx = self.lf_frame[header.lf_level as usize];
-            self.spawn_renderer(lf_frame_idx);
-            lf_frame_idx
+        // A frame that is already complete keeps the dependencies it was loaded with; the current
+        // slots may hold the frame itself by now.
+        let (lf_frame_idx, ref_slots) = if let Some(deps) = self.frame_deps.get(frame.index()) {
+            (deps.lf, deps.ref_slots)
+        } else if header.flags.use_lf_frame() {
+            (self.lf_frame[header.lf_level as usize], self.reference)
         } else {
-            usize::MAX
+            (usize::MAX, self.reference)
         };
-        for idx in self.reference {
+        if lf_frame_idx != usize::MAX {
+            self.spawn_renderer(lf_frame_idx);
+        }
+        for idx in ref_slots {
             if idx != usize::MAX {
                 self.spawn_renderer(idx);
             }
@@ -828,7 +833,7 @@ impl RenderContext {
                     frame: Arc::clone(&self.frames[lf_frame_idx]),
                     image: Arc::clone(&self.renders_narrow[lf_frame_idx]),
                 }),
-                refs: self.reference.map(|r| {
+                refs: ref_slots.map(|r| {
                     (r != usize::MAX).then(|| Reference {
                         frame: Arc::clone(&self.frames[r]),
                         image: Arc::clone(&self.renders_narrow[r]),
@@ -890,7 +895,7 @@ impl RenderContext {
                     frame: Arc::clone(&self.frames[lf_frame_idx]),
                     image: Arc::clone(&self.renders_wide[lf_frame_idx]),
                 }),
-                refs: self.reference.map(|r| {
+                refs: ref_slots.map(|r| {
                     (r != usize::MAX).then(|| Reference {
                         frame: Arc::clone(&self.frames[r]),
                         image: Arc::clone(&self.renders_wide[r]),
